@@ -341,6 +341,17 @@ func paramFor(at *expr.AttributeExpr, name, in string, required bool) *Parameter
 		p.Format = "byte"
 	}
 	p.Extensions = openapi.ExtensionsFromExpr(at.Meta)
+	if alias != at && at.Validation != nil {
+		// the validations of the alias type hold next to the ones given
+		// on the attribute itself
+		merged := *alias
+		merged.Validation = at.Validation.Dup()
+		if alias.Validation != nil {
+			merged.Validation = alias.Validation.Dup()
+			merged.Validation.Merge(at.Validation)
+		}
+		alias = &merged
+	}
 	initValidations(alias, p)
 	return p
 }
